@@ -298,7 +298,7 @@ def match_member(o, slot):
 # running a scenario
 class Rec:
     """one request's observed fate"""
-    __slots__ = ('caller', 'x', 'via', 'kind', 'value', 't0', 't1', 'timeout', 'bp', 'backlog_at_reject', 'pos')
+    __slots__ = ('caller', 'x', 'via', 'kind', 'value', 't0', 't1', 'timeout', 'bp', 'backlog_at_reject', 'pos', 'step0', 'step1', 'full_seen')
 
     def __init__(self, caller, x, via, timeout=None, bp=None, pos=None):
         self.caller = caller
@@ -312,6 +312,9 @@ class Rec:
         self.bp = bp
         self.backlog_at_reject = None
         self.pos = pos
+        self.step0 = None
+        self.step1 = None
+        self.full_seen = None
 
     def brief(self):
         v = self.value
@@ -334,6 +337,10 @@ def _classify_exc(rec, e):
         rec.kind = 'full'
         rec.backlog_at_reject = e.args[0]
         rec.value = e
+        import sim.core as core
+        lf = getattr(core._SIM, 'last_full_step', None)
+        if lf is not None and rec.step0 is not None:
+            rec.full_seen = lf >= rec.step0 - 1
     else:
         rec.kind = 'error'
         rec.value = e
@@ -351,6 +358,7 @@ def sync_caller(sim, server, ci, ops, recs):
             r = Rec(ci, op['x'], 'call', op.get('timeout'), op.get('bp', False))
             recs.append(r)
             r.t0 = sim.now
+            r.step0 = sim.steps
             try:
                 kw = {}
                 if op.get('timeout') is not None:
@@ -442,6 +450,7 @@ async def async_caller(sim, server, ci, ops, recs):
             r = Rec(ci, op['x'], 'call', op.get('timeout'), op.get('bp', False))
             recs.append(r)
             r.t0 = sim.now
+            r.step0 = sim.steps
             try:
                 kw = {}
                 if op.get('timeout') is not None:
